@@ -1213,6 +1213,11 @@ def schema_read_until_empty(ctx, fn, cfg, lp, ev):
                 if isinstance(t, ast.UnaryOp) and isinstance(t.op, ast.Not) and isinstance(t.operand, ast.Name) and t.operand.id == var:
                     if st.body and isinstance(st.body[-1], (ast.Break, ast.Return)):
                         ok = True
+                if not ok:
+                    # any other spelling of `var is empty` (negations, `len(var) >= 1` / `> 0` under `not`, ...)
+                    from .sem import emptiness_by as _eb
+                    if _eb(t, lambda e_: isinstance(e_, ast.Name) and e_.id == var) is True and st.body and isinstance(st.body[-1], (ast.Break, ast.Return)):
+                        ok = True
         if not ok:
             return False, "READ-UNTIL-EMPTY", "a back-edge path does not pass the `read returned nothing -> leave` test after the read"
     # read size must be a positive quantity: an attribute with positive defaults at every constructor, or a positive constant
